@@ -26,6 +26,7 @@ import core
 from core import Infra
 
 WORKER = Path(__file__).resolve().parent / "c06_worker.py"
+_CLK = os.sysconf("SC_CLK_TCK")
 BATCH_BYTES = 40 * 1024      # < the 64 KiB pipe buffer: writing a micro-batch never blocks on a stuck worker
 BATCH_ITEMS = 24
 
@@ -51,8 +52,11 @@ class Slot:
     def spawn(self):
         self.close()
         env = dict(os.environ)
-        env.update({"OPENBLAS_NUM_THREADS": "1", "OMP_NUM_THREADS": "1", "MKL_NUM_THREADS": "1",
-                    "PYTHONDONTWRITEBYTECODE": "1", "PYTHONHASHSEED": "0"})
+        env.update({"OPENBLAS_NUM_THREADS": "1", "OMP_NUM_THREADS": "1", "MKL_NUM_THREADS": "1", "PYTHONHASHSEED": "0"})
+        # byte code: never the repository's own __pycache__ (stale-cache risk, and a check must not write under the
+        # repository); a per-run prefix directory that the first worker fills and the others (and every respawn) reuse
+        env.pop("PYTHONDONTWRITEBYTECODE", None)
+        env["PYTHONPYCACHEPREFIX"] = self.pool.pyc
         env.update(self.pool.env)
         self.err = open(self.errpath, "wb")
         self.p = subprocess.Popen([sys.executable, "-X", "faulthandler", str(WORKER), str(core.REPO),
@@ -101,15 +105,34 @@ class Slot:
         except OSError:
             return ""
 
-    def readmsg(self, timeout):
+    def cpu_s(self):
+        """user+system CPU seconds of the worker so far (None when unreadable)"""
+        try:
+            with open(f"/proc/{self.p.pid}/stat", "rb") as f:
+                parts = f.read().rsplit(b")", 1)[1].split()
+            return (int(parts[11]) + int(parts[12])) / _CLK
+        except (OSError, IndexError, ValueError):
+            return None
+
+    def readmsg(self, timeout, starvation_aware=True):
+        """next JSON line of the worker.  _Timeout when no answer came within `timeout` seconds of wall clock AND the
+        worker had the CPU for at least 60 % of that limit, or - on a machine so loaded that the worker is starved -
+        within 4 x timeout regardless."""
         fd = self.p.stdout.fileno()
-        deadline = time.monotonic() + timeout
+        t0 = time.monotonic()
+        cpu0 = None
         while b"\n" not in self.buf:
-            left = deadline - time.monotonic()
-            if left <= 0:
-                raise _Timeout()
-            r, _, _ = select.select([fd], [], [], min(left, 1.0))
+            waited = time.monotonic() - t0
+            if waited >= timeout:
+                if not starvation_aware or waited >= 4 * timeout:
+                    raise _Timeout()
+                now = self.cpu_s()
+                if cpu0 is None or now is None or (now - cpu0) + 1.0 >= 0.6 * timeout:
+                    raise _Timeout()
+            r, _, _ = select.select([fd], [], [], 1.0 if waited >= 1.0 else min(1.0, timeout))
             if not r:
+                if cpu0 is None:
+                    cpu0 = self.cpu_s()     # sampled once, about one second into a slow item
                 continue
             chunk = os.read(fd, 1 << 16)
             if not chunk:
@@ -243,9 +266,12 @@ class Pool:
         self.env = env or {}
         self._tmp = tempfile.TemporaryDirectory(prefix="verif-c06-")
         self.tmp = self._tmp.name
+        self.pyc = os.environ.get("PYTHONPYCACHEPREFIX") or os.path.join(self.tmp, "pyc")
+        os.makedirs(self.pyc, exist_ok=True)
         self.slots = [Slot(self, k) for k in range(self.n)]
         self.respawns = 0
         self.hello = None
+        self.abort = False        # set by an on_result callback: the remaining items of map() are not run
 
     def start(self):
         errs = []
@@ -255,7 +281,8 @@ class Pool:
                 s.spawn()
             except Infra as e:
                 errs.append(e)
-        ths = [threading.Thread(target=go, args=(s,)) for s in self.slots]
+        self.slots[0].spawn()        # fills the byte-code cache of this run; the others then start quickly
+        ths = [threading.Thread(target=go, args=(s,)) for s in self.slots[1:]]
         for t in ths:
             t.start()
         for t in ths:
@@ -277,6 +304,8 @@ class Pool:
             """next micro-batch: consecutive items, total <= BATCH_BYTES (fits the pipe buffer) and <= BATCH_ITEMS,
             or one single larger item"""
             batch, size = [], 0
+            if self.abort:
+                return batch
             while len(batch) < BATCH_ITEMS:
                 if pending:
                     x = pending.pop()
